@@ -33,6 +33,16 @@ CHECKS.update({
         text=('Decides zero/NaR preservation and saturation thresholds of the six width conversions (both spellings). Narrowing rounding between thresholds not decided.'), design='4/C08'),
 })
 
+CHECKS.update({
+    'C05': dict(level='other', technique='abstract interpretation per operand-triple cell + program-dependence slice (necessary dependence on the selector)',
+        text=('Decides NaR propagation, zero-product results and operand order of mul_add / mul_sub / sub_product per cell; requires the general-path result of each '
+              'kernel to depend on the operation selector (otherwise the three operations coincide). Rounding/cancellation not decided.'), design='4/C05'),
+    'C17': dict(level='proof', technique='symbolic term evaluation of MIR (forwarder wiring): term(forwarder) == term(expected inherent target)',
+        text=('Every operator / From / num_traits / Quire trait method of the three posit and three quire types is proved to denote the expected inherent target applied '
+              'to its parameters in order (or the expected named constant); AssociatedQuire and type aliases from the impl/alias tables. Obligations = forwarders + table entries; all discharged.'),
+        design='4/C17'),
+})
+
 NOT_APPLICABLE = {
 }
 
